@@ -87,7 +87,9 @@ func init() {
 			ctx context.Context,
 			err error,
 		) (msg string, safeDetails []string, payload proto.Message) {
-			return "", nil, nil
+			// The message is for receivers that do not know this type:
+			// they cannot rebuild it from the causes.
+			return err.Error(), nil, nil
 		},
 	)
 	errbase.RegisterMultiCauseDecoder(
